@@ -121,30 +121,128 @@ Qed.
 Print Assumptions split_live_origin_is_ith.
 
 (* ====================================================================== *)
+(* 1b. skip_deleted, split_gap                                             *)
+(* ====================================================================== *)
+
+Lemma deleted_not_live : forall x, d_del x = true -> live x = false.
+Proof. intros x H. unfold live. rewrite H. reflexivity. Qed.
+
+Lemma skip_deleted_app : forall l d b, skip_deleted l = (d, b) -> l = d ++ b.
+Proof.
+  induction l as [|x r IH]; intros d b H; cbn [skip_deleted] in H.
+  - inversion H; reflexivity.
+  - destruct (d_del x).
+    + destruct (skip_deleted r) as [d' b'] eqn:E. inversion H; subst. cbn [app]. f_equal.
+      apply IH. reflexivity.
+    + inversion H; reflexivity.
+Qed.
+
+Lemma skip_deleted_all_deleted : forall l d b, skip_deleted l = (d, b) ->
+  forall z, In z d -> d_del z = true.
+Proof.
+  induction l as [|x r IH]; intros d b H z Hz; cbn [skip_deleted] in H.
+  - inversion H; subst. destruct Hz.
+  - destruct (d_del x) eqn:Dx.
+    + destruct (skip_deleted r) as [d' b'] eqn:E. inversion H; subst.
+      destruct Hz as [Hz|Hz]; [subst z; exact Dx|eapply IH; [reflexivity|exact Hz]].
+    + inversion H; subst. destruct Hz.
+Qed.
+
+Lemma skip_deleted_head_not_deleted : forall l d x b, skip_deleted l = (d, x :: b) -> d_del x = false.
+Proof.
+  induction l as [|y r IH]; intros d x b H; cbn [skip_deleted] in H.
+  - inversion H.
+  - destruct (d_del y) eqn:Dy.
+    + destruct (skip_deleted r) as [d' b'] eqn:E. inversion H; subst. eapply IH. reflexivity.
+    + inversion H; subst. exact Dy.
+Qed.
+
+Lemma filter_live_all_deleted : forall d, (forall z, In z d -> d_del z = true) -> filter live d = [].
+Proof.
+  induction d as [|x r IH]; intros H; [reflexivity|]. cbn [filter].
+  rewrite (deleted_not_live x) by (apply H; left; reflexivity).
+  apply IH. intros z Hz. apply H. right. exact Hz.
+Qed.
+
+(* [split_gap] = [split_live], then the run of deleted items that follows moves to the left part *)
+Lemma split_gap_decompose : forall i l a b, split_gap i l = (a, b) ->
+  exists a0 d, split_live i l = (a0, d ++ b) /\ a = a0 ++ d /\
+               (forall z, In z d -> d_del z = true) /\
+               match b with x :: _ => d_del x = false | [] => True end.
+Proof.
+  intros i l a b H. unfold split_gap in H.
+  destruct (split_live i l) as [a0 b0] eqn:Hs. destruct (skip_deleted b0) as [d b'] eqn:Hk.
+  inversion H; subst. exists a0, d.
+  split; [f_equal; apply skip_deleted_app; exact Hk|]. split; [reflexivity|].
+  split; [eapply skip_deleted_all_deleted; exact Hk|].
+  destruct b as [|x b'']; [exact I|]. eapply skip_deleted_head_not_deleted. exact Hk.
+Qed.
+
+Lemma split_gap_app : forall i l a b, split_gap i l = (a, b) -> l = a ++ b.
+Proof.
+  intros i l a b H. destruct (split_gap_decompose _ _ _ _ H) as (a0 & d & Hs & Ea & _ & _).
+  rewrite (split_live_app _ _ _ _ Hs), Ea, <- app_assoc. reflexivity.
+Qed.
+Print Assumptions split_gap_app.
+
+(* the items moved to the left part are deleted: both splits have the same live units on the left *)
+Theorem split_gap_live_prefix : forall i l,
+  filter live (fst (split_gap i l)) = filter live (fst (split_live i l)).
+Proof.
+  intros i l. destruct (split_gap i l) as [a b] eqn:H.
+  destruct (split_gap_decompose _ _ _ _ H) as (a0 & d & Hs & Ea & Hd & _).
+  rewrite Hs. cbn [fst]. rewrite Ea, filter_app, (filter_live_all_deleted d Hd). apply app_nil_r.
+Qed.
+Print Assumptions split_gap_live_prefix.
+
+Theorem split_gap_right_head_not_deleted : forall i l a b x,
+  split_gap i l = (a, x :: b) -> d_del x = false.
+Proof.
+  intros i l a b x H. destruct (split_gap_decompose _ _ _ _ H) as (a0 & d & _ & _ & _ & Hx). exact Hx.
+Qed.
+Print Assumptions split_gap_right_head_not_deleted.
+
+Lemma split_gap_count : forall i l a b, split_gap i l = (a, b) ->
+  i <= length (filter live l) -> length (filter live a) = i.
+Proof.
+  intros i l a b H L. pose proof (split_gap_live_prefix i l) as E. rewrite H in E. cbn [fst] in E.
+  rewrite E. destruct (split_live i l) as [a0 b0] eqn:Hs. cbn [fst].
+  eapply split_live_count; eassumption.
+Qed.
+Print Assumptions split_gap_count.
+
+(* [last_id a]: the i-th live unit when no tombstone follows it, otherwise the last tombstone of the
+   run that follows it; in both cases no live unit lies between the i-th live unit and the gap *)
+Theorem split_gap_origin : forall i l a b, split_gap i l = (a, b) ->
+  i <= length (filter live l) ->
+  exists a0 d, a = a0 ++ d /\ (forall z, In z d -> d_del z = true) /\
+    match i with
+    | O => a0 = []
+    | S j => exists y, nth_live l j = Some y /\ last_id a0 = Some (did y) /\ live y = true
+    end.
+Proof.
+  intros i l a b H L. destruct (split_gap_decompose _ _ _ _ H) as (a0 & d & Hs & Ea & Hd & _).
+  exists a0, d. split; [exact Ea|]. split; [exact Hd|].
+  exact (split_live_origin_is_ith _ _ _ _ Hs L).
+Qed.
+Print Assumptions split_gap_origin.
+
+(* ====================================================================== *)
 (* 2. local insertion refines insertion into a plain sequence              *)
 (* ====================================================================== *)
 
 Lemma yata_insert_nil : forall x, oorigin (d_op x) = None -> yata_insert [] x = [x].
 Proof. intros x H. unfold yata_insert. rewrite H. reflexivity. Qed.
 
-(* the new item lands exactly in the gap [split_live] designates: immediately after the i-th live
-   unit, before any tombstones that follow it *)
-Theorem local_insert_position : forall key l i newid c a b,
-  NoDup (map did l) -> split_live i l = (a, b) ->
-  (i = 0 \/ exists a' y, a = a' ++ [y]) ->
-  local_insert key l i newid c = a ++ mkditem (local_op key l i newid c) false :: b.
+(* generic form: when the origin is the last item of [a] and the right origin the first item of [b],
+   the conflict scan stops at once and the new item lands between [a] and [b] *)
+Lemma yata_insert_at_gap : forall l x a b,
+  NoDup (map did l) -> l = a ++ b ->
+  oorigin (d_op x) = last_id a -> ororigin (d_op x) = head_id b ->
+  yata_insert l x = a ++ x :: b.
 Proof.
-  intros key l i newid c a b Hnd Hs Ha.
-  pose proof (split_live_app _ _ _ _ Hs) as Hl.
-  unfold local_insert. set (x := mkditem (local_op key l i newid c) false).
-  assert (Ho : oorigin (d_op x) = last_id a).
-  { unfold x, local_op. rewrite Hs. reflexivity. }
-  assert (Hr : ororigin (d_op x) = head_id b).
-  { unfold x, local_op. rewrite Hs. reflexivity. }
-  assert (Ha' : a = [] \/ exists a' y, a = a' ++ [y]).
-  { destruct Ha as [Hi|Ha]; [|right; exact Ha]. subst i. rewrite split_live_zero in Hs.
-    inversion Hs. left. reflexivity. }
-  destruct Ha' as [Ea|(a' & yo & Ea)].
+  intros l x a b Hnd Hl Ho Hr.
+  destruct (list_snoc_cases _ a) as [Ea|(a' & yo & Ea)].
   - subst a. cbn [app] in *. subst b. cbn [last_id rev] in Ho.
     destruct l as [|yr post].
     + apply yata_insert_nil. exact Ho.
@@ -178,6 +276,25 @@ Proof.
       * symmetry in Em. apply app_eq_nil in Em. destruct Em; subst. rewrite Ei.
         rewrite <- app_assoc. reflexivity.
 Qed.
+
+(* origin / right origin of the created unit: the two neighbours of the gap [split_gap] designates *)
+Lemma local_op_origins : forall key l i newid c a b, split_gap i l = (a, b) ->
+  oorigin (local_op key l i newid c) = last_id a /\ ororigin (local_op key l i newid c) = head_id b.
+Proof. intros key l i newid c a b Hs. unfold local_op. rewrite Hs. split; reflexivity. Qed.
+
+(* the new item lands exactly in the gap [split_gap] designates: after the i-th live unit and the
+   tombstones that follow it, immediately before the next item that is not deleted.  (The third
+   hypothesis is kept for the shape of the statement; it is not needed any more.) *)
+Theorem local_insert_position : forall key l i newid c a b,
+  NoDup (map did l) -> split_gap i l = (a, b) ->
+  (i = 0 \/ exists a' y, a = a' ++ [y]) ->
+  local_insert key l i newid c = a ++ mkditem (local_op key l i newid c) false :: b.
+Proof.
+  intros key l i newid c a b Hnd Hs _.
+  pose proof (split_gap_app _ _ _ _ Hs) as Hl.
+  destruct (local_op_origins key l i newid c a b Hs) as [Ho Hr].
+  unfold local_insert. apply yata_insert_at_gap; assumption.
+Qed.
 Print Assumptions local_insert_position.
 
 Lemma split_live_shape : forall i l a b, split_live i l = (a, b) ->
@@ -186,6 +303,13 @@ Proof.
   intros i l a b H L. destruct i as [|j]; [left; reflexivity|right].
   destruct (split_live_last _ _ _ _ H) as (a' & y & Ea & _); [lia|exact L|].
   exists a', y. exact Ea.
+Qed.
+
+Lemma split_gap_shape : forall i l a b, split_gap i l = (a, b) ->
+  i <= length (filter live l) -> i = 0 \/ exists a' y, a = a' ++ [y].
+Proof.
+  intros i l a b H L. destruct (list_snoc_cases _ a) as [Ea|Ea]; [|right; exact Ea].
+  left. pose proof (split_gap_count _ _ _ _ H L) as Hc. subst a. symmetry. exact Hc.
 Qed.
 
 Lemma firstn_skipn_at : forall (A : Type) (u v : list A) i, length u = i ->
@@ -203,10 +327,10 @@ Theorem local_insert_refines : forall key l i newid c,
   contents (local_insert key l i newid c) = firstn i (contents l) ++ c :: skipn i (contents l).
 Proof.
   intros key l i newid c Hnd _ L Hlive.
-  destruct (split_live i l) as [a b] eqn:Hs.
-  rewrite (local_insert_position key l i newid c a b Hnd Hs (split_live_shape _ _ _ _ Hs L)).
-  pose proof (split_live_app _ _ _ _ Hs) as Hl.
-  pose proof (split_live_count _ _ _ _ Hs L) as Hc.
+  destruct (split_gap i l) as [a b] eqn:Hs.
+  rewrite (local_insert_position key l i newid c a b Hnd Hs (split_gap_shape _ _ _ _ Hs L)).
+  pose proof (split_gap_app _ _ _ _ Hs) as Hl.
+  pose proof (split_gap_count _ _ _ _ Hs L) as Hc.
   rewrite contents_app, contents_cons_live by exact Hlive.
   assert (Ec : ocont (d_op (mkditem (local_op key l i newid c) false)) = c).
   { unfold local_op. rewrite Hs. reflexivity. }
@@ -225,7 +349,7 @@ Lemma local_op_live : forall key l i newid c,
   match c with UDeleted | UFormat _ _ => false | _ => true end.
 Proof.
   intros key l i newid c. unfold live, countable, local_op.
-  destruct (split_live i l) as [a b]. reflexivity.
+  destruct (split_gap i l) as [a b]. reflexivity.
 Qed.
 
 (* a non-countable unit (format mark) leaves the contents unchanged *)
@@ -235,9 +359,9 @@ Theorem local_insert_uncountable : forall key l i newid c,
   contents (local_insert key l i newid c) = contents l.
 Proof.
   intros key l i newid c Hnd L Hlive.
-  destruct (split_live i l) as [a b] eqn:Hs.
-  rewrite (local_insert_position key l i newid c a b Hnd Hs (split_live_shape _ _ _ _ Hs L)).
-  pose proof (split_live_app _ _ _ _ Hs) as Hl.
+  destruct (split_gap i l) as [a b] eqn:Hs.
+  rewrite (local_insert_position key l i newid c a b Hnd Hs (split_gap_shape _ _ _ _ Hs L)).
+  pose proof (split_gap_app _ _ _ _ Hs) as Hl.
   rewrite contents_app, contents_cons_dead by exact Hlive.
   assert (Hcl : contents l = contents a ++ contents b) by (rewrite Hl; apply contents_app).
   rewrite Hcl. reflexivity.
@@ -249,7 +373,7 @@ Proof.
   intros key l i newid c. unfold local_insert.
   set (x := mkditem (local_op key l i newid c) false).
   assert (E : did x = newid).
-  { unfold x, did, local_op. destruct (split_live i l). reflexivity. }
+  { unfold x, did, local_op. destruct (split_gap i l). reflexivity. }
   rewrite <- E. change (did x :: map did l) with (map did (x :: l)).
   apply Permutation_map. apply yata_insert_perm.
 Qed.
@@ -940,3 +1064,62 @@ Proof.
     by (apply id_eqb_neq; apply Hpost; left; reflexivity).
   rewrite Eh. f_equal. apply IH. intros z Hz. apply Hpost. right. exact Hz.
 Qed.
+
+(* ====================================================================== *)
+(* 7. placement of a local insertion among tombstones                      *)
+(* ====================================================================== *)
+
+(* The new unit lands after the tombstones that follow the i-th live unit.  No hypothesis on the
+   conflict scan is needed: the right origin is by construction the head of [b] and the origin the
+   last item of [a], so the scan stops at once.  (Freshness of [newid] is not needed either; it is
+   listed because the neighbouring theorems carry it.) *)
+Theorem local_insert_after_following_tombstones : forall key l i newid c a b,
+  NoDup (map did l) -> ~ In newid (map did l) -> split_gap i l = (a, b) ->
+  local_insert key l i newid c = a ++ mkditem (local_op key l i newid c) false :: b.
+Proof.
+  intros key l i newid c a b Hnd _ Hs.
+  pose proof (split_gap_app _ _ _ _ Hs) as Hl.
+  destruct (local_op_origins key l i newid c a b Hs) as [Ho Hr].
+  unfold local_insert. apply yata_insert_at_gap; assumption.
+Qed.
+
+(* the same relative to [split_live]: exactly the run [d] of deleted items that follows the i-th live
+   unit is passed over, and the right neighbour of the new unit, if any, is not deleted *)
+Theorem local_insert_gap_shape : forall key l i newid c,
+  NoDup (map did l) ->
+  exists a0 d b,
+    split_live i l = (a0, d ++ b) /\ split_gap i l = (a0 ++ d, b) /\
+    (forall z, In z d -> d_del z = true) /\
+    match b with x :: _ => d_del x = false | [] => True end /\
+    oorigin (local_op key l i newid c) = last_id (a0 ++ d) /\
+    ororigin (local_op key l i newid c) = head_id b /\
+    local_insert key l i newid c = a0 ++ d ++ mkditem (local_op key l i newid c) false :: b.
+Proof.
+  intros key l i newid c Hnd. destruct (split_gap i l) as [a b] eqn:Hs.
+  destruct (split_gap_decompose _ _ _ _ Hs) as (a0 & d & Hl & Ea & Hd & Hb).
+  exists a0, d, b. subst a. split; [exact Hl|]. split; [reflexivity|]. split; [exact Hd|].
+  split; [exact Hb|]. destruct (local_op_origins key l i newid c _ _ Hs) as [Ho Hr].
+  split; [exact Ho|]. split; [exact Hr|].
+  unfold local_insert. rewrite (app_assoc a0 d). apply yata_insert_at_gap; try assumption.
+  eapply split_gap_app. exact Hs.
+Qed.
+
+(* the placement of the previous model (directly after the i-th live unit, left of the tombstones
+   that follow it) does not hold any more: one live unit followed by one tombstone, index 1 *)
+Example local_insert_not_before_tombstones :
+  let key : seqkey := (PNamed [], None) in
+  let A := mkditem (mkop (mkid 1 0) None None (PNamed []) None (UString 65)) false in
+  let T := mkditem (mkop (mkid 1 1) (Some (mkid 1 0)) None (PNamed []) None (UString 66)) true in
+  let x := mkditem (local_op key [A; T] 1 (mkid 2 0) (UString 67)) false in
+  split_live 1 [A; T] = ([A], [T]) /\
+  local_insert key [A; T] 1 (mkid 2 0) (UString 67) = [A; T; x] /\
+  local_insert key [A; T] 1 (mkid 2 0) (UString 67) <> [A] ++ x :: [T].
+Proof.
+  cbv zeta. split; [reflexivity|]. split; [vm_compute; reflexivity|]. vm_compute. discriminate.
+Qed.
+
+Print Assumptions local_insert_after_following_tombstones.
+Print Assumptions local_insert_gap_shape.
+Print Assumptions local_insert_not_before_tombstones.
+Print Assumptions split_gap_right_head_not_deleted.
+Print Assumptions split_gap_live_prefix.
